@@ -76,6 +76,92 @@ func runClosures(raw json.RawMessage) (res *Result, err error) {
 		}
 		return nil
 	}
+	// closures with an identity >= 1000 change their own slot while they run (once):
+	// identities = 0,1 mod 4 remove themselves, the others install closure (f-1000) mod 8
+	// in their place.  The call in progress is answered by the closure that was
+	// installed when it began; the slot then holds what the closure put there -
+	// recorded for the model as a PSet right after the call.
+	var pending []string
+	var install func(slot, f int)
+	fired := map[int]bool{}
+	frozen := false // set for the closing probes: the closures then only answer
+	selfmod := func(slot, f int) {
+		if f < 1000 || fired[f] || frozen {
+			return
+		}
+		fired[f] = true
+		nf := -1
+		ft := "None"
+		if f%4 >= 2 {
+			nf = (f - 1000) % 8
+			ft = fmt.Sprintf("(Some %d%%N)", nf)
+		}
+		install(slot, nf)
+		pending = append(pending, fmt.Sprintf("(PSet %d%%N %s)", slot, ft))
+	}
+	install = func(slot, f int) {
+		switch slot {
+		case 1:
+			var fn stk.ValidityPolicy
+			if f >= 0 {
+				fn = func(...any) error { return oddErr(f) }
+			}
+			if in.Cond {
+				c.SetValidityPolicy(fn)
+			} else {
+				s.SetValidityPolicy(fn)
+			}
+		case 2:
+			var fn stk.PresentationPolicy
+			if f >= 0 {
+				fn = func(...any) string { return marker(f) }
+			}
+			if in.Cond {
+				c.SetPresentationPolicy(fn)
+			} else {
+				s.SetPresentationPolicy(fn)
+			}
+		case 3:
+			if f >= 0 {
+				fn := stk.EqualityPolicy(func(any, any) error { return oddErr(f) })
+				if in.Cond {
+					c.SetEqualityPolicy(fn)
+				} else {
+					s.SetEqualityPolicy(fn)
+				}
+			} else if in.Cond {
+				c.SetEqualityPolicy()
+			} else {
+				s.SetEqualityPolicy()
+			}
+		case 4:
+			if f >= 0 {
+				fn := stk.Unmarshaler(func(...any) ([]any, error) { selfmod(4, f); return []any{marker(f)}, oddErr(f) })
+				if in.Cond {
+					c.SetUnmarshaler(fn)
+				} else {
+					s.SetUnmarshaler(fn)
+				}
+			} else if in.Cond {
+				c.SetUnmarshaler()
+			} else {
+				s.SetUnmarshaler()
+			}
+		case 5:
+			if f >= 0 {
+				s.SetMarshaler(stk.Marshaler(func(a ...any) error { mafCalls++; mafArgs = len(a); selfmod(5, f); return oddErr(f) }))
+			} else {
+				s.SetMarshaler()
+			}
+			mafOn = f >= 0
+		case 6:
+			var fn stk.Evaluator
+			if f >= 0 {
+				fn = func(...any) (any, error) { return marker(f), oddErr(f) }
+			}
+			c.SetEvaluator(fn)
+		}
+	}
 	var callT, obsT []string
 	var recs []any
 	panicked := false
@@ -98,67 +184,7 @@ func runClosures(raw json.RawMessage) (res *Result, err error) {
 				}
 				callT = append(callT, fmt.Sprintf("(PSet %d%%N %s)", cl.Slot, ft))
 				ob = "OUnit"
-				switch cl.Slot {
-				case 1:
-					var fn stk.ValidityPolicy
-					if f >= 0 {
-						fn = func(...any) error { return oddErr(f) }
-					}
-					if in.Cond {
-						c.SetValidityPolicy(fn)
-					} else {
-						s.SetValidityPolicy(fn)
-					}
-				case 2:
-					var fn stk.PresentationPolicy
-					if f >= 0 {
-						fn = func(...any) string { return marker(f) }
-					}
-					if in.Cond {
-						c.SetPresentationPolicy(fn)
-					} else {
-						s.SetPresentationPolicy(fn)
-					}
-				case 3:
-					if f >= 0 {
-						fn := stk.EqualityPolicy(func(any, any) error { return oddErr(f) })
-						if in.Cond {
-							c.SetEqualityPolicy(fn)
-						} else {
-							s.SetEqualityPolicy(fn)
-						}
-					} else if in.Cond {
-						c.SetEqualityPolicy()
-					} else {
-						s.SetEqualityPolicy()
-					}
-				case 4:
-					if f >= 0 {
-						fn := stk.Unmarshaler(func(...any) ([]any, error) { return []any{marker(f)}, oddErr(f) })
-						if in.Cond {
-							c.SetUnmarshaler(fn)
-						} else {
-							s.SetUnmarshaler(fn)
-						}
-					} else if in.Cond {
-						c.SetUnmarshaler()
-					} else {
-						s.SetUnmarshaler()
-					}
-				case 5:
-					if f >= 0 {
-						s.SetMarshaler(stk.Marshaler(func(a ...any) error { mafCalls++; mafArgs = len(a); return oddErr(f) }))
-					} else {
-						s.SetMarshaler()
-					}
-					mafOn = f >= 0
-				case 6:
-					var fn stk.Evaluator
-					if f >= 0 {
-						fn = func(...any) (any, error) { return marker(f), oddErr(f) }
-					}
-					c.SetEvaluator(fn)
-				}
+				install(cl.Slot, f)
 			case "valid":
 				callT = append(callT, "PValid")
 				var e error
@@ -256,6 +282,11 @@ func runClosures(raw json.RawMessage) (res *Result, err error) {
 		}()
 		obsT = append(obsT, ob)
 		recs = append(recs, map[string]any{"call": cl, "out": rec})
+		for _, ps := range pending {
+			callT = append(callT, ps)
+			obsT = append(obsT, "OUnit")
+		}
+		pending = nil
 		if panicked {
 			break
 		}
@@ -299,6 +330,7 @@ func runClosures(raw json.RawMessage) (res *Result, err error) {
 				}
 				return out
 			}
+			frozen = true
 			a1 := answers()
 			if in.Cond {
 				c.SetReadOnly(true)
@@ -340,6 +372,23 @@ func genClosures(ctx *Ctx, emit func(any, string)) {
 			return []ClCall{{Op: "valid"}, {Op: "string"}, {Op: "isequal"}, {Op: "unmarshal"}, {Op: "evaluate"}}
 		}
 		return []ClCall{{Op: "valid"}, {Op: "string"}, {Op: "isequal"}, {Op: "unmarshal"}, {Op: "errset"}}
+	}
+	// closures that remove or replace themselves from inside the call: the call is
+	// answered by the closure, the next one by whatever it left in the slot
+	for _, kind := range append([]string{"COND"}, kinds...) {
+		cond := kind == "COND"
+		k := kind
+		if cond {
+			k = ""
+		}
+		for f := 1000; f < 1008; f++ {
+			calls := []ClCall{{Op: "set", Slot: 4, F: f}, {Op: "unmarshal"}, {Op: "unmarshal"}, {Op: "unmarshal"}, {Op: "set", Slot: 4, F: -1}, {Op: "unmarshal"}}
+			emit(ClInput{Cond: cond, Kind: k, Calls: calls}, "exhaustive")
+			if !cond {
+				calls = []ClCall{{Op: "set", Slot: 5, F: f}, {Op: "marshal", F: 0}, {Op: "marshal", F: 1}, {Op: "marshal", F: 0}, {Op: "unmarshal"}}
+				emit(ClInput{Cond: cond, Kind: k, Calls: calls}, "exhaustive")
+			}
+		}
 	}
 	// exhaustive: every single closure slot x {accepting, rejecting} installed then removed, on every kind
 	for _, kind := range append([]string{"COND"}, kinds...) {
@@ -387,6 +436,8 @@ func genClosures(ctx *Ctx, emit func(any, string)) {
 				f := r.Intn(8)
 				if r.Pct(25) {
 					f = -1
+				} else if (sl == 4 || sl == 5) && r.Pct(25) {
+					f = 1000 + r.Intn(8) // a closure that removes / replaces itself while it runs
 				}
 				in.Calls = append(in.Calls, ClCall{Op: "set", Slot: sl, F: f})
 			} else {
